@@ -50,6 +50,20 @@ def mixes(rng, n):
     c = copy.deepcopy(base)
     c["parameters"].update({"baseUrl": "%host%:%port%", "host": "mirror.%baseUrl%"})
     out.append(("param-cycle+missing-param-after", c))
+    # many diagnostics of one class followed by violations of the other classes: no rule stops the later ones, whatever the count
+    for many, k in (("params", 12), ("params", 40), ("services", 12), ("services", 40), ("both", 15)):
+        c = copy.deepcopy(base)
+        for j in range(k):
+            args = []
+            if many in ("params", "both"):
+                args += ["%%missing_p%02d%%" % j, "%%missing_q%02d%%" % j]
+            if many in ("services", "both"):
+                args += ["@missing_s%02d" % j]
+            c["services"]["m%02d" % j] = {"constructor": "fx.NewA", "arguments": args}
+        c["services"]["zlast"] = {"constructor": "fx.NewA", "arguments": ["@teamLeader" if many == "params" else "%finalParam%"]}
+        c["services"]["y1"] = {"constructor": "fx.NewA", "arguments": ["@y2"]}
+        c["services"]["y2"] = {"constructor": "fx.NewA", "arguments": ["@y1"]}
+        out.append(("many-%s-%d" % (many, k), c))
     for i in range(n):
         c = gen.gen_config(rng)
         if i % 2:
